@@ -9,6 +9,8 @@
 #include <cstdlib>
 #include <cstring>
 #include <memory>
+#include <cstdarg>
+#include <fcntl.h>
 #include <sys/types.h>
 #include <unistd.h>
 
@@ -23,6 +25,20 @@ int __real_fileno(FILE *);
 int __real_ftruncate64(int, off64_t);
 int __real_ftruncate(int, off_t);
 void *__real_realloc(void *, size_t);
+int __real_open(const char *, int, ...);
+int __real_open64(const char *, int, ...);
+int __real_creat(const char *, mode_t);
+ssize_t __real_read(int, void *, size_t);
+ssize_t __real_write(int, const void *, size_t);
+ssize_t __real_pread(int, void *, size_t, off_t);
+ssize_t __real_pwrite(int, const void *, size_t, off_t);
+ssize_t __real_pread64(int, void *, size_t, off64_t);
+ssize_t __real_pwrite64(int, const void *, size_t, off64_t);
+off_t __real_lseek(int, off_t, int);
+off64_t __real_lseek64(int, off64_t, int);
+int __real_close(int);
+int __real_fsync(int);
+int __real_fdatasync(int);
 }
 
 namespace psv {
@@ -394,6 +410,78 @@ int sim_access(const char *path) {
 	return -1;
 }
 
+// open(2) of a /sim path: a handle without a stdio stream. The mode string recorded in the op log says what
+// the open did to the file, in the letters crash_image() understands: "r" read only, "r+" write access to an
+// existing file, "w" create-or-truncate, "c" create-if-missing without truncation, "a" append.
+int sim_open_fd(const char *path, int flags) {
+	State &s = S();
+	free_dead_bufs();
+	uint64_t idx = s.counts[OP_OPEN]++;
+	s.stats.opens++;
+	int acc = flags & O_ACCMODE;
+	bool wr = acc == O_WRONLY || acc == O_RDWR, rd = acc == O_RDONLY || acc == O_RDWR;
+	std::string mode = !wr ? "r" : (flags & O_APPEND) ? "a" : (flags & O_CREAT) ? ((flags & O_TRUNC) ? "w" : "c") : ((flags & O_TRUNC) ? "w" : "r+");
+	if (rd && wr && mode != "r+") mode += "+";
+	Op op; op.kind = OP_OPEN; op.path = path; op.mode = mode;
+	auto fail = [&](int e, const std::string &name) -> int {
+		op.err = e; op.fault = name; push(std::move(op)); errno = e; return -1;
+	};
+	if (const Fault *f = match("open", idx)) {
+		int e = errno_from_name(f->err);
+		if (!e) e = EIO;
+		fire("open", f->err);
+		return fail(e, f->err);
+	}
+	auto it = s.files.find(path);
+	std::shared_ptr<File> file;
+	if (it == s.files.end()) {
+		if (!(flags & O_CREAT)) return fail(ENOENT, "");
+		file = std::make_shared<File>();
+		s.files[path] = file;
+	} else {
+		if ((flags & O_CREAT) && (flags & O_EXCL)) return fail(EEXIST, "");
+		file = it->second;
+		if (wr && (flags & O_TRUNC)) file->data.clear();
+	}
+	std::unique_ptr<Handle> h(new Handle());
+	h->id = (int)s.handles.size();
+	h->path = path;
+	h->file = file;
+	h->rd = rd; h->wr = wr; h->append = (flags & O_APPEND) != 0;
+	h->pos = 0;
+	op.handle = h->id;
+	int fd = FAKE_FD_BASE + h->id;
+	s.handles.push_back(std::move(h));
+	push(std::move(op));
+	return fd;
+}
+
+int sim_sync(Handle &h) {
+	State &s = S();
+	uint64_t idx = s.counts[OP_SYNC]++;
+	Op op; op.kind = OP_SYNC; op.path = h.path; op.handle = h.id;
+	if (h.closed) { op.err = EBADF; push(std::move(op)); errno = EBADF; return -1; }
+	if (const Fault *f = match("sync", idx)) {
+		int e = errno_from_name(f->err);
+		if (!e) e = EIO;
+		fire("sync", f->err);
+		op.err = e; op.fault = f->err; push(std::move(op)); errno = e; return -1;
+	}
+	push(std::move(op));
+	return 0;
+}
+
+// pread/pwrite: the transfer happens at `off` and leaves the file position alone
+ssize_t sim_pio(Handle &h, void *rbuf, const void *wbuf, size_t n, int64_t off) {
+	if (off < 0) { errno = EINVAL; return -1; }
+	uint64_t save = h.pos;
+	bool app = h.append;
+	h.pos = (uint64_t)off; h.append = false;
+	ssize_t r = wbuf ? kwrite(h, static_cast<const uint8_t *>(wbuf), n) : ck_read(&h, static_cast<char *>(rbuf), n);
+	h.pos = save; h.append = app;
+	return r;
+}
+
 Handle *handle_of_fd(int fd) {
 	State &s = S();
 	if (fd < FAKE_FD_BASE) return nullptr;
@@ -433,7 +521,7 @@ int sim_truncate(Handle &h, int64_t len) {
 } // namespace
 
 const char *kind_name(OpKind k) {
-	static const char *n[] = {"open", "write", "read", "seek", "truncate", "remove", "close", "rename"};
+	static const char *n[] = {"open", "write", "read", "seek", "truncate", "remove", "close", "rename", "sync"};
 	return (int)k >= 0 && k < OP_NKINDS ? n[k] : "?";
 }
 bool kind_from_name(const std::string &s, OpKind &k) {
@@ -641,6 +729,70 @@ int __wrap_ftruncate64(int fd, off64_t len) {
 int __wrap_ftruncate(int fd, off_t len) {
 	if (Handle *h = handle_of_fd(fd)) return sim_truncate(*h, (int64_t)len);
 	return __real_ftruncate(fd, len);
+}
+int __wrap_open(const char *path, int flags, ...) {
+	mode_t m = 0;
+	if (flags & (O_CREAT | O_TMPFILE)) { va_list ap; va_start(ap, flags); m = (mode_t)va_arg(ap, int); va_end(ap); }
+	if (is_sim_path(path)) return sim_open_fd(path, flags);
+	return __real_open(path, flags, m);
+}
+int __wrap_open64(const char *path, int flags, ...) {
+	mode_t m = 0;
+	if (flags & (O_CREAT | O_TMPFILE)) { va_list ap; va_start(ap, flags); m = (mode_t)va_arg(ap, int); va_end(ap); }
+	if (is_sim_path(path)) return sim_open_fd(path, flags);
+	return __real_open64(path, flags, m);
+}
+int __wrap_creat(const char *path, mode_t m) {
+	if (is_sim_path(path)) return sim_open_fd(path, O_WRONLY | O_CREAT | O_TRUNC);
+	return __real_creat(path, m);
+}
+ssize_t __wrap_write(int fd, const void *buf, size_t n) {
+	if (Handle *h = handle_of_fd(fd)) return kwrite(*h, static_cast<const uint8_t *>(buf), n);
+	return __real_write(fd, buf, n);
+}
+ssize_t __wrap_read(int fd, void *buf, size_t n) {
+	if (Handle *h = handle_of_fd(fd)) return ck_read(h, static_cast<char *>(buf), n);
+	return __real_read(fd, buf, n);
+}
+ssize_t __wrap_pwrite(int fd, const void *buf, size_t n, off_t off) {
+	if (Handle *h = handle_of_fd(fd)) return sim_pio(*h, nullptr, buf, n, (int64_t)off);
+	return __real_pwrite(fd, buf, n, off);
+}
+ssize_t __wrap_pread(int fd, void *buf, size_t n, off_t off) {
+	if (Handle *h = handle_of_fd(fd)) return sim_pio(*h, buf, nullptr, n, (int64_t)off);
+	return __real_pread(fd, buf, n, off);
+}
+ssize_t __wrap_pwrite64(int fd, const void *buf, size_t n, off64_t off) {
+	if (Handle *h = handle_of_fd(fd)) return sim_pio(*h, nullptr, buf, n, (int64_t)off);
+	return __real_pwrite64(fd, buf, n, off);
+}
+ssize_t __wrap_pread64(int fd, void *buf, size_t n, off64_t off) {
+	if (Handle *h = handle_of_fd(fd)) return sim_pio(*h, buf, nullptr, n, (int64_t)off);
+	return __real_pread64(fd, buf, n, off);
+}
+off_t __wrap_lseek(int fd, off_t off, int whence) {
+	if (Handle *h = handle_of_fd(fd)) { off64_t o = off; return ck_seek(h, &o, whence) == 0 ? (off_t)o : (off_t)-1; }
+	return __real_lseek(fd, off, whence);
+}
+off64_t __wrap_lseek64(int fd, off64_t off, int whence) {
+	if (Handle *h = handle_of_fd(fd)) { off64_t o = off; return ck_seek(h, &o, whence) == 0 ? o : (off64_t)-1; }
+	return __real_lseek64(fd, off, whence);
+}
+int __wrap_close(int fd) {
+	if (Handle *h = handle_of_fd(fd)) {
+		if (h->closed) { errno = EBADF; return -1; }
+		if (h->fp) { errno = EBADF; return -1; }   // the descriptor under a stdio stream belongs to the stream
+		return ck_close(h);
+	}
+	return __real_close(fd);
+}
+int __wrap_fsync(int fd) {
+	if (Handle *h = handle_of_fd(fd)) return sim_sync(*h);
+	return __real_fsync(fd);
+}
+int __wrap_fdatasync(int fd) {
+	if (Handle *h = handle_of_fd(fd)) return sim_sync(*h);
+	return __real_fdatasync(fd);
 }
 void *__wrap_realloc(void *p, size_t n) {
 	if (g_ra_armed) {
